@@ -277,6 +277,17 @@ pub fn run_check(env: &Arc<Env>, check: Arc<dyn Check>, tier: Tier) -> i32 {
             env.say(&format!("slow: index={i} {us}us runs={} {} {} {}", r.runs, scn.family, scn.planner.kind.name(), crate::gen::space_label(scn)));
         }
     }
+    // digest of every scenario's event hash in run-index order: equal digests = the same
+    // executions, whatever the worker count (used by `./check selftest`)
+    let run_digest = {
+        let mut h = crate::prng::Fnv::default();
+        for (scn, rep) in &sw.reports {
+            h.u64(scn.hash());
+            h.u64(rep.event_hash);
+            h.u64(rep.violations.len() as u64);
+        }
+        h.0
+    };
     let mut exit = 0;
     let mut n_viol = 0u64;
     let mut known_hit = vec![];
@@ -352,6 +363,7 @@ pub fn run_check(env: &Arc<Env>, check: Arc<dyn Check>, tier: Tier) -> i32 {
             "known_findings_hit": known_hit,
             "replays": replays,
             "workers": env.workers,
+            "run_digest": format!("{run_digest:016x}"),
         },
         "assumptions": check.assumptions(),
         "wall_s": wall,
@@ -361,13 +373,14 @@ pub fn run_check(env: &Arc<Env>, check: Arc<dyn Check>, tier: Tier) -> i32 {
     std::fs::write(format!("{}/evidence/{}.json", env.dir, check.id()), serde_json::to_string_pretty(&ev).unwrap())
         .expect("write evidence");
     env.say(&format!(
-        "[{}] scenarios={} planner_runs={} nontrivial={} traces={} violations={} wall={:.1}s{}",
+        "[{}] scenarios={} planner_runs={} nontrivial={} traces={} violations={} digest={:016x} wall={:.1}s{}",
         check.id(),
         n,
         planner_runs,
         nontrivial.len(),
         traces.len(),
         n_viol,
+        run_digest,
         wall,
         if missing.is_empty() { String::new() } else { format!(" (probes at zero: {missing:?})") }
     ));
